@@ -114,7 +114,61 @@ def _fresh_tmp():
     templates.ZorgTemplateManager.tmp_dir = tempfile.TemporaryDirectory(dir=str(H.scratch_root()))
 
 
+def _run_two_inits(ctx, case) -> F.Outcome:
+    """Two initialisations in ONE process from templates that share a base name
+    but live in different directories (each must render its own template)."""
+    from zorg.service.templates import init_from_template
+
+    _, order, gap = case
+    H.freeze(DAY)
+    out = F.Outcome()
+    files = {
+        "work/log.zot": "# work tmpl\n\n## Work log for {{ name }}\n\no review work inbox\n",
+        "home/log.zot": "# home tmpl\n\n## Home log for {{ name }}\n\n- water the plants\n",
+        "log.zot": "# top tmpl\n\n## Top log for {{ name }}\n",
+    }
+    zd = Z.make_zdir(files, "c16")
+    try:
+        import jinja2
+
+        pmap = {re.compile(r"work/(?P<name>[a-z]+)\.zo"): Path("work/log.zot"),
+                re.compile(r"home/(?P<name>[a-z]+)\.zo"): Path("home/log.zot"),
+                re.compile(r"(?P<name>[a-z]+)_top\.zo"): Path("log.zot")}
+        targets = {"w": ("work/alpha.zo", "work/log.zot", "alpha"), "h": ("home/beta.zo", "home/log.zot", "beta"),
+                   "t": ("gamma_top.zo", "log.zot", "gamma")}
+        problems = []
+        for k in order:
+            tgt, tmpl, name = targets[k]
+            if gap:
+                # make the template file older than anything rendered so far
+                import os
+                import time as _t
+                old = _t.time() - 3600
+                os.utime(zd / tmpl, (old, old))
+            try:
+                init_from_template(zd, pmap, Path(tgt))
+            except Exception as e:  # noqa: BLE001
+                problems.append(("raised", {"target": tgt, "error": f"{type(e).__name__}: {e}"}))
+                continue
+            want = jinja2.Template(model_body(files[tmpl])).render({"name": name, "dt": dt})
+            got = (zd / tgt).read_text() if (zd / tgt).exists() else None
+            if got != want:
+                problems.append(("content-differs-from-first-matching-template:same-basename-templates",
+                                 {"target": tgt, "template": tmpl, "expected": want, "observed": got}))
+        out.obs = H.digest([order, problems])
+        out.nontrivial = H.digest(case)
+        if problems:
+            out.ok = False
+            out.sig = problems[0][0]
+            out.detail = {"order_of_initialisations": order, "problem": problems[0][1]}
+    finally:
+        Z.drop(zd)
+    return out
+
+
 def _run_case(ctx, case) -> F.Outcome:
+    if case[0] == "two":
+        return _run_two_inits(ctx, case)
     mode, pmap, ti, exists, overwrite, explicit, vi = case
     target, vm = TARGETS[ti], VARMAPS[vi]
     zd = _setup(pmap, target, exists)
@@ -207,6 +261,12 @@ def _cases(ctx):
                             if ctx.quick and len(pmap) == 2 and vi == 2 and overwrite:
                                 continue
                             cases.append(["fn", pmap, ti, exists, overwrite, explicit, vi])
+    # several initialisations in one process from same-named templates
+    for order in it.permutations("wht", 3):
+        for gap in (False, True):
+            cases.append(["two", list(order), gap])
+    for order in it.permutations("wht", 2):
+        cases.append(["two", list(order), True])
     # through the CLI: every map of size <= 1 plus a few pairs
     cli_maps = [[]] + [[i] for i in range(len(PATTERNS))] + [[1, 0], [0, 1], [2, 1], [3, 4]]
     for pmap in cli_maps:
@@ -219,6 +279,8 @@ def _cases(ctx):
 
 
 def _sample(case):
+    if case[0] == "two":
+        return {"two_initialisations_in_one_process": case[1], "templates": ["work/log.zot", "home/log.zot", "log.zot"]}
     mode, pmap, ti, exists, overwrite, explicit, vi = case
     return {"via": mode, "pattern_map_in_order": [PATTERNS[pi] for pi in pmap], "target": TARGETS[ti],
             "target_exists": exists, "overwrite": overwrite, "explicit_template": explicit, "vars": VARMAPS[vi]}
@@ -236,7 +298,9 @@ def run(ctx: F.Ctx):
             "in a new sub-directory, without extension, matching only '.*', a date-shaped name that "
             "is not a calendar date) x {missing, existing} x overwrite flag x {no, explicit} "
             "template x 3 variable maps, through the real init_from_template; plus 10 maps through "
-            "the `zorg template init` CLI with the map read from a YAML config in order. Oracle: "
+            "the `zorg template init` CLI with the map read from a YAML config in order; plus every order of "
+            "two/three initialisations in one process from templates that share a base name in "
+            "different directories. Oracle: "
             "existing and not forced => bytes and mtime unchanged; otherwise content == own jinja2 "
             "rendering of the first matching pattern's template body with captured groups over "
             "given variables (date-like strings as datetimes); no match and no explicit template => "
